@@ -92,13 +92,14 @@ def run_cli(fmt, opts, data, mode):
             f.write(data)
         cmd = [PY, os.path.join(HERE, "imgcli_worker.py"), MODULE[fmt]]
         if mode == "ff":
-            p = subprocess.run(cmd + [src, dst] + opts, stdin=subprocess.DEVNULL, capture_output=True, cwd=REPO, timeout=120)
+            p = subprocess.run(cmd + [src, dst] + opts, stdin=subprocess.DEVNULL, capture_output=True, cwd=REPO, timeout=120, env=dict(os.environ, PYTHONPATH=REPO))
             out = open(dst, "rb").read() if os.path.exists(dst) else None
         elif mode == "fo":
-            p = subprocess.run(cmd + [src] + opts, stdin=subprocess.DEVNULL, capture_output=True, cwd=REPO, timeout=120)
+            p = subprocess.run(cmd + [src] + opts, stdin=subprocess.DEVNULL, capture_output=True, cwd=REPO, timeout=120, env=dict(os.environ, PYTHONPATH=REPO))
             out = p.stdout
         elif mode == "ip":          # standard input through a pipe that delivers the file in three pieces, not aligned with any read
-            p = subprocess.Popen(cmd + opts, stdin=subprocess.PIPE, stdout=subprocess.PIPE, stderr=subprocess.PIPE, cwd=REPO)
+            p = subprocess.Popen(cmd + opts, stdin=subprocess.PIPE, stdout=subprocess.PIPE, stderr=subprocess.PIPE, cwd=REPO,
+                                 env=dict(os.environ, PYTHONPATH=REPO))
             import threading
             import time
             cuts = sorted({min(len(data), 7), min(len(data), max(8, len(data) // 3 + 5))})
@@ -106,20 +107,41 @@ def run_cli(fmt, opts, data, mode):
             def feed():
                 try:
                     pos = 0
-                    for c in cuts + [len(data)]:
+                    for n_, c in enumerate(cuts + [len(data)]):
                         p.stdin.write(data[pos:c])
                         p.stdin.flush()
                         pos = c
-                        time.sleep(0.15)
+                        time.sleep(1.5 if n_ == 0 else 0.4)      # the reader must be up and waiting before the next piece comes
                     p.stdin.close()
                 except (BrokenPipeError, OSError):
                     pass
-            t = threading.Thread(target=feed)
+            t = threading.Thread(target=feed, daemon=True)
+            guard = threading.Timer(120, p.kill)          # a reader that never ends is ended: no arrangement may block the check
+            guard.start()
             t.start()
-            out = p.stdout.read()
-            p.stderr.read()
-            p.wait(timeout=120)
-            t.join()
+            try:
+                out, _err = p.communicate_no_stdin() if hasattr(p, "communicate_no_stdin") else (None, None)
+                if out is None:
+                    import selectors
+                    chunks, sel = [], selectors.DefaultSelector()
+                    sel.register(p.stdout, selectors.EVENT_READ)
+                    sel.register(p.stderr, selectors.EVENT_READ)
+                    open_ = 2
+                    while open_:
+                        for key, _ in sel.select(timeout=130):
+                            b = os.read(key.fileobj.fileno(), 65536)
+                            if not b:
+                                sel.unregister(key.fileobj)
+                                open_ -= 1
+                            elif key.fileobj is p.stdout:
+                                chunks.append(b)
+                        if p.poll() is not None and not sel.get_map():
+                            break
+                    out = b"".join(chunks)
+                p.wait(timeout=10)
+            finally:
+                guard.cancel()
+            t.join(timeout=5)
         elif mode == "fd":          # an explicit `-` for the output
             p = subprocess.run(cmd + [src, "-"] + opts, stdin=subprocess.DEVNULL, capture_output=True, cwd=d, timeout=120,
                                env=dict(os.environ, PYTHONPATH=REPO))
@@ -129,7 +151,7 @@ def run_cli(fmt, opts, data, mode):
                                env=dict(os.environ, PYTHONPATH=REPO))
             out = p.stdout
         else:
-            p = subprocess.run(cmd + opts, input=data, capture_output=True, cwd=REPO, timeout=120)
+            p = subprocess.run(cmd + opts, input=data, capture_output=True, cwd=REPO, timeout=120, env=dict(os.environ, PYTHONPATH=REPO))
             out = p.stdout
         return p.returncode, out
 
